@@ -29,6 +29,7 @@ type gscen struct {
 	Input               string // small, big, empty, corrupt, truncated
 	Existing            bool   // target pre-exists
 	Preset              string
+	Rel                 bool // the file is named relative to the working directory, after "--"
 }
 
 func (s gscen) String() string {
@@ -36,7 +37,11 @@ func (s gscen) String() string {
 	if s.Decomp {
 		op = "decompress"
 	}
-	return fmt.Sprintf("%s %s k=%v f=%v c=%v name=%s input=%s existing=%v", op, s.Format, s.Keep, s.Force, s.Stdout, s.Name, s.Input, s.Existing)
+	rel := ""
+	if s.Rel {
+		rel = " relative-name"
+	}
+	return fmt.Sprintf("%s %s k=%v f=%v c=%v name=%s input=%s existing=%v%s", op, s.Format, s.Keep, s.Force, s.Stdout, s.Name, s.Input, s.Existing, rel)
 }
 
 // plain returns the plaintext P of the scenario.
@@ -174,6 +179,9 @@ func (s gscen) args(dir string) []string {
 	if !s.Decomp {
 		a = append(a, "-F", s.Format, s.Preset)
 	}
+	if s.Rel {
+		return append(a, "--", s.Name)
+	}
 	return append(a, filepath.Join(dir, s.Name))
 }
 
@@ -221,6 +229,13 @@ func c10Scenarios(c *ev.Ctx) []gscen {
 			add(gscen{Decomp: true, Format: f, Name: "data.bin", Input: "small", Force: true})
 			add(gscen{Decomp: true, Format: f, Name: "data." + f, Input: "small", Existing: true, Force: true})
 		}
+		// names given relative to the working directory, also one that looks like an option or
+		// like the stdin/stdout marker once the suffix is removed
+		add(gscen{Decomp: true, Format: "xz", Name: "-.xz", Input: "small", Rel: true})
+		add(gscen{Decomp: true, Format: "lzma", Name: "-.lzma", Input: "truncated", Rel: true})
+		add(gscen{Decomp: true, Format: "lzma", Name: "-k.lzma", Input: "small", Rel: true})
+		add(gscen{Format: "xz", Name: "-c", Input: "small", Rel: true})
+		add(gscen{Format: "lzma", Name: "plain name", Input: "small", Rel: true, Keep: true})
 		add(gscen{Format: "xz", Name: "data.txz", Input: "small"})
 		add(gscen{Decomp: true, Format: "xz", Name: "data.txz", Input: "small"})
 		add(gscen{Decomp: true, Format: "lzma", Name: "data.tlz", Input: "small", Stdout: true})
@@ -228,6 +243,16 @@ func c10Scenarios(c *ev.Ctx) []gscen {
 		add(gscen{Format: "xz", Name: "data.txt", Input: "small", Preset: "-6"})
 		add(gscen{Decomp: true, Format: "xz", Name: "data", Input: "small"})
 		return out
+	}
+	for _, f := range []string{"xz", "lzma"} {
+		for _, in := range []string{"small", "corrupt", "truncated"} {
+			for fl := 0; fl < 4; fl++ {
+				add(gscen{Decomp: true, Format: f, Name: "-." + f, Input: in, Rel: true, Keep: fl&1 != 0, Force: fl&2 != 0})
+			}
+		}
+		add(gscen{Decomp: true, Format: f, Name: "--." + f, Input: "small", Rel: true})
+		add(gscen{Format: f, Name: "-d", Input: "small", Rel: true})
+		add(gscen{Format: f, Name: "--", Input: "small", Rel: true})
 	}
 	for _, dec := range []bool{false, true} {
 		for _, f := range []string{"xz", "lzma"} {
